@@ -739,6 +739,35 @@ def c17_chain(rot: int, i: int, j: int, variant: int, optim: int) -> bool:
     return chx.judge("C17", "c17_chain", raw, (rules, [rr, ii, jj]), obs, _chain_oracle)
 
 
+# ----------------------------------------------------------------------------------------
+# a duplication below a production: S -> B[f], B -> C D; both C and D must be able to pop f
+
+DUP_SKELETON = [("prod", "S", "B", "f"), ("dup", "B", "C", "D"), ("cons", "f", "C", "E"), ("end", "E", "a")]
+DUP_C2 = [[], [("cons", "f", "C", "E")], [("cons", "f", "C", "F"), ("end", "F", "b")], [("cons", "g", "C", "E")]]
+DUP_D = [[], [("cons", "f", "D", "E")], [("cons", "g", "D", "E")], [("end", "D", "d")],
+         [("cons", "g", "D", "E"), ("cons", "g", "D", "S")]]
+
+
+def c17_dup(c2: int, dd: int, rot: int, optim: int) -> bool:
+    """
+    pre: pinned(c2=c2, dd=dd, optim=optim)
+    pre: ((0 <= c2) & (c2 < 4)) & ((0 <= dd) & (dd < 5)) & ((0 <= rot) & (rot < 8)) & ((0 <= optim) & (optim < 8))
+    post: _
+    """
+    raw = (c2, dd, rot, optim)
+    rules = DUP_SKELETON + DUP_C2[enc.pick(c2, 4)] + DUP_D[enc.pick(dd, 5)]
+    rr = enc.pick(rot, 8)
+    op_ = enc.pick(optim, 8)
+    n = len(rules)
+    rules = rules[rr % n:] + rules[:rr % n]
+    chx.enter("c17_dup", raw)
+
+    def verdict():
+        return IndexedGrammar(Rules([_lib_rule(r) for r in rules], op_)).is_empty()
+    obs = [("is_empty", chx.guarded(verdict))]
+    return chx.judge("C17", "c17_dup", raw, (rules, [rr]), obs, _chain_oracle)
+
+
 CONDS = [
     Cond("C17", c17_chain, lambda tier: (product_pins(rot=list(range(7)), variant=list(range(8)), optim=[0])
                                          if tier == "quick" else
@@ -765,4 +794,11 @@ CONDS = [
           "thorough": "5 automata (also a leading epsilon move, the empty word only); optim 7 with the reversed rule order"},
          FUNCS_INTER, "non-trivial grammar", stubs=[], assumptions=ASSUME, per_path_timeout=600.0,
          shard_timeout={"quick": 1500, "thorough": 6000}),
+    Cond("C17", c17_dup, lambda tier: product_pins(c2=[0, 1, 2, 3], dd=[0, 1, 2, 3, 4],
+                                                   optim=[0] if tier == "quick" else [0, 3, 6, 7]),
+         {"quick": "S->B[f], B->C D, (f,C,E), E->a plus a second rule for C (none / the same consumption again / another "
+                   "consumption of f / a consumption of g) and rules for D (none / consumption of f / of g / an end rule "
+                   "/ two consumptions of g), in 8 rotations of the rule list, optim 0: is_empty() against O-IG",
+          "thorough": "also optim 3, 6, 7"},
+         FUNCS, "always", assumptions=ASSUME),
 ]
